@@ -145,25 +145,32 @@ Init == \E n \in 1..Len(Literals) :
           /\ hist = <<[op |-> [k |-> "lit", els |-> Literals[n]], ret |-> <<"none">>, d |-> Ref!A!Dump(Ref!A!Literal(Literals[n])),
                        kind |-> io.kind, lret |-> <<"none">>, ld |-> Ref!A!Dump(Ref!A!Literal(Literals[n]))]>>
 
-Edge(op, move) ==
+AllOps == ExploreOps \o ProbeOps
+
+Move(op) ==
   LET s == Step(op) IN
-  /\ Emit => PrintT(<<"EDGE", ToJson(Append(hist, Record(s)))>>)
   /\ refok' = (refok /\ s.commutes)
-  /\ IF move THEN io' = s.next /\ hist' = Append(hist, Record(s))
-             ELSE UNCHANGED <<io, hist>>
+  /\ io' = s.next
+  /\ hist' = Append(hist, Record(s))
 
-Next == \/ \E n \in 1..Len(ExploreOps) : Edge(ExploreOps[n], Len(hist) <= Depth)
-        \/ \E n \in 1..Len(ProbeOps) : Edge(ProbeOps[n], FALSE)
+\* exhaustive mode: the state graph is grown with the Explore operations only (Depth of them after the literal) ...
+Next == \E n \in 1..Len(ExploreOps) : Len(hist) <= Depth /\ Move(ExploreOps[n])
 
-\* free exploration for -simulate: every operation moves
-SimNext == \E n \in 1..(Len(ExploreOps) + Len(ProbeOps)) :
-             LET op == IF n <= Len(ExploreOps) THEN ExploreOps[n] ELSE ProbeOps[n - Len(ExploreOps)]
-                 s == Step(op)
-             IN /\ refok' = (refok /\ s.commutes)
-                /\ io' = s.next
-                /\ hist' = Append(hist, Record(s))
+\* ... and in EVERY reachable state EVERY operation of the alphabet is applied once: this is the commutation check
+\* of the refinement for that (state, operation) edge, and the emission of one conformance record per state
+\* (NODE: the shortest history that reaches the state + the reference observation of every operation from it).
+RECURSIVE StepsUpTo(_)
+StepsUpTo(n) == IF n = 0 THEN <<>> ELSE Append(StepsUpTo(n - 1), Step(AllOps[n]))
+EdgesCommute ==
+  LET steps == StepsUpTo(Len(AllOps)) IN
+  /\ Emit => PrintT(<<"NODE", ToJson([h |-> hist, steps |-> [n \in 1..Len(steps) |-> Record(steps[n])]])>>)
+  /\ \A n \in 1..Len(steps) : steps[n].commutes \/ PrintT(<<"NOCOMMUTE", hist, AllOps[n]>>) = FALSE
+
+\* free exploration for -simulate: every operation moves; one REPLAY per behaviour
+SimNext == \E n \in 1..Len(AllOps) : Move(AllOps[n])
 SimEmit == Len(hist) = Depth + 1 => PrintT(<<"REPLAY", ToJson(hist)>>)
 
+\* oracle mode: replay given histories (IOEnv.HISTS = ndjson file, one {"lit": [...], "ops": [...]} per line)
 Spec == Init /\ [][Next]_vars
 
 ----------------------------------------------------------------------------
